@@ -149,6 +149,11 @@ pub fn register_worker_thread() {
 /// Starts the CPU-time watchdog: if one case burns more than `cpu_budget_s` CPU seconds on the
 /// worker thread, a hang record is printed and the process exits with status 3.
 pub fn start_watchdog(cpu_budget_s: u64, prop: String, shard: u64) {
+    // under Miri everything is thousands of times slower and /proc is the host's: no CPU watchdog
+    // (the orchestrator's wall-clock cap, whose firing is inconclusive, still bounds the run)
+    if cfg!(miri) {
+        return;
+    }
     std::thread::spawn(move || {
         let mut last_seq = u64::MAX;
         let mut cpu_at_start = 0u64;
